@@ -7,6 +7,9 @@
 //!   After every step the oracle below is evaluated on what the real code shows, and the whole run
 //!   (point reached, current/min version, both counters after each step, result of every acquire) is
 //!   also replayed by the Coq model on the same schedule.
+//! Cell `concx/L<level>`: the same with with_*_token, tokens handed between threads, 40-item retirements, gated bulk reclaim
+//!   on a list of any threshold, clear_all_stats; replayed by the same model (coq/C16/Model.v `concb_ok`).
+//! Cell `lazy_free_list`: LazyFreeList scripts, replayed by coq/C16/ModelLazy.v `lazy_ok`.
 //! Cell `seq`: one thread, several managers, tokens cached / dropped / managers dropped in any order.
 //!
 //! The oracle decides the property text directly (independent of the model):
@@ -29,11 +32,11 @@ use zipora::fsa::version_sync::{
 };
 
 const HEADER: &str = r#"From ZV.Common Require Import Base Run.
-From ZV.C16 Require Import Model ModelSeq.
+From ZV.C16 Require Import Model ModelSeq ModelLazy.
 Open Scope N_scope.
-Definition case_t : Type := (conc_case + seq_case)%type.
+Inductive case_t := CConc (c : concb_case) | CSeq (c : seq_case) | CLazy (c : lazy_case).
 Definition ok (c : case_t) : bool :=
-  match c with inl c => conc_ok true c | inr c => seq_ok c end.
+  match c with CConc c => concb_ok true c | CSeq c => seq_ok c | CLazy c => lazy_ok c end.
 "#;
 
 // ------------------------------------------------------------------------------------------------
@@ -75,7 +78,7 @@ impl Op {
         })
     }
     fn coq(&self) -> String {
-        match self { Op::Drop(i) => format!("Drop {}", i), Op::Ret(i) => format!("Ret {}", i), o => o.name().to_string() }
+        match self { Op::Drop(i) => format!("Drop {}", i), Op::Ret(i) => format!("Ret {}", i), Op::Give(i) => format!("Give {}", i), o => o.name().to_string() }
     }
 }
 
@@ -627,12 +630,13 @@ fn conc_case_json(level: u8, progs: &[Vec<Op>], sched: &[usize], bulk: Option<u6
     c
 }
 
-fn coq_conc(level: u8, progs: &[Vec<Op>], o: &RunOut) -> String {
+fn coq_conc(level: u8, progs: &[Vec<Op>], o: &RunOut, bulk: Option<u64>) -> String {
     let ps: Vec<String> = progs.iter().map(|p| format!("[{}]", p.iter().map(|x| x.coq()).collect::<Vec<_>>().join("; "))).collect();
     let sched: Vec<String> = o.sched.iter().map(|t| format!("{}%nat", t)).collect();
     let tr: Vec<String> = o.trace.iter().map(|x| format!("({}, {}, {}, {}, {})", x.0, x.1, x.2, x.3, x.4)).collect();
     let rs: Vec<String> = o.results.iter().map(|r| coq_z_list(r.iter().cloned())).collect();
-    format!("inl ({}%N, [{}], [{}], [{}]%N, [{}])", level, ps.join("; "), sched.join("; "), tr.join("; "), rs.join("; "))
+    // the bulk threshold of the shared LazyFreeList is a part of the case (LazyFreeList::new(): BULK_FREE_NUM = 32)
+    format!("CConc ({}%N, {}%N, [{}], [{}], [{}]%N, [{}])", level, bulk.unwrap_or(LazyFreeList::BULK_FREE_NUM as u64), ps.join("; "), sched.join("; "), tr.join("; "), rs.join("; "))
 }
 
 struct Ctx {
@@ -641,6 +645,8 @@ struct Ctx {
     coq_budget: usize,
     rng: Rng,
     runs: u64,
+    lazy_seen: u64,
+    lazy_all: bool,
 }
 
 impl Ctx {
@@ -653,7 +659,6 @@ impl Ctx {
         let o = run_conc(level, progs, chooser, bulk);
         self.runs += 1;
         let ext = conc_is_ext(progs, bulk);
-        let to_coq = to_coq && !ext;
         let cell = format!("{}/L{}", if ext { "concx" } else { "conc" }, level);
         let cj = conc_case_json(level, progs, &o.sched, bulk);
         let switches = o.sched.windows(2).filter(|w| w[0] != w[1]).count();
@@ -666,11 +671,12 @@ impl Ctx {
         for f in &o.failures {
             self.sum.fail(&cell, None, cj.clone(), f);
         }
-        if !ext && (to_coq || !o.failures.is_empty()) && self.shards.len() < self.coq_budget && !o.failures.iter().any(|f| f.contains("deadlock") || f.contains("did not") || f.contains("panic")) {
+        if (to_coq || !o.failures.is_empty()) && self.shards.len() < self.coq_budget && !o.failures.iter().any(|f| f.contains("deadlock") || f.contains("did not") || f.contains("panic")) {
             let mut c = cj.clone();
             c["impl_trace"] = json!(o.trace.iter().map(|x| vec![x.0 as u64, x.1, x.2, x.3, x.4]).collect::<Vec<_>>());
             c["impl_results"] = json!(o.results.iter().map(|r| r.iter().map(|x| x.to_string()).collect::<Vec<_>>()).collect::<Vec<_>>());
-            self.shards.push(coq_conc(level, progs, &o), c);
+            if ext { self.sum.dist("concx_runs_replayed_by_the_model"); }
+            self.shards.push(coq_conc(level, progs, &o, bulk), c);
         }
         o
     }
@@ -1276,7 +1282,7 @@ impl Ctx {
         if !ext && (to_coq || !o.failures.is_empty()) && self.shards.len() < self.coq_budget && !o.failures.iter().any(|f| f.1.contains("panic")) {
             let mut c = cj.clone();
             c["impl_obs"] = json!(o.obs.iter().map(|r| r.iter().map(|x| x.to_string()).collect::<Vec<_>>()).collect::<Vec<_>>());
-            let term = format!("inr ({}, [{}], [{}])", coq_bool(leave),
+            let term = format!("CSeq ({}, [{}], [{}])", coq_bool(leave),
                 ops.iter().map(|x| x.coq()).collect::<Vec<_>>().join("; "),
                 o.obs.iter().map(|r| coq_z_list(r.iter().cloned())).collect::<Vec<_>>().join("; "));
             self.shards.push(term, c);
@@ -1464,13 +1470,15 @@ fn rand_prog(r: &mut Rng, len: usize, cache: bool) -> Vec<Op> {
 
 pub fn run(args: &Args) {
     let mut cx = Ctx {
-        sum: Summary::new("C16", "real threads parked at schedule hooks before every shared access of acquire/release/try_advance; all schedules with a bounded number of pre-emptions (all schedules for the single-operation races) of fixed 2-3 thread programs at every ConcurrencyLevel, random programs under random schedules, sequential histories over 1-3 managers with cached tokens and manager drops; a concurrent run is non-trivial when it has >= 2 context switches at a level that tracks versions, a sequential one when it has >= 2 managers and >= 5 operations; distinct = distinct (programs, executed schedule). Oracle breadth (cells concx/L*, seqx, long, lazy_free_list; oracle only, not replayed by the model): with_reader_token / with_writer_token (closure succeeds, fails, panics, asks for a second token, nested) and TokenAccess::{read,write}_with_manager, TokenManager::with_version_manager (several doors to one set of counters), a TokenCache owned by the history (cache_*_token, get_*_token, get_*_token_for, clear), tokens handed to and released by another thread (dropped, cached there, thread exit), clear_all_stats / clear_stats between operations, validate_token_version and issued_by of every held token against every manager after every step, VersionManagerStats::active_readers/active_writers against the counters, tokens lent to CompressedSparseTrie::*_with_token, LazyFreeList::{default, with_bulk_threshold 0..usize::MAX, should_bulk_process-gated processing, clear_stats, can_free}, 40-item retirements in controlled runs, generated single-thread histories of up to 500000 operations (named by level, n, seed, threshold) with versions and queues beyond 2^16"),
+        sum: Summary::new("C16", "real threads parked at schedule hooks before every shared access of acquire/release/try_advance; all schedules with a bounded number of pre-emptions (all schedules for the single-operation races) of fixed 2-3 thread programs at every ConcurrencyLevel, random programs under random schedules, sequential histories over 1-3 managers with cached tokens and manager drops; a concurrent run is non-trivial when it has >= 2 context switches at a level that tracks versions, a sequential one when it has >= 2 managers and >= 5 operations; distinct = distinct (programs, executed schedule). Oracle breadth (cells concx/L*, lazy_free_list: replayed by the model since the model extension; seqx, long: oracle only): with_reader_token / with_writer_token (closure succeeds, fails, panics, asks for a second token, nested) and TokenAccess::{read,write}_with_manager, TokenManager::with_version_manager (several doors to one set of counters), a TokenCache owned by the history (cache_*_token, get_*_token, get_*_token_for, clear), tokens handed to and released by another thread (dropped, cached there, thread exit), clear_all_stats / clear_stats between operations, validate_token_version and issued_by of every held token against every manager after every step, VersionManagerStats::active_readers/active_writers against the counters, tokens lent to CompressedSparseTrie::*_with_token, LazyFreeList::{default, with_bulk_threshold 0..usize::MAX, should_bulk_process-gated processing, clear_stats, can_free}, 40-item retirements in controlled runs, generated single-thread histories of up to 500000 operations (named by level, n, seed, threshold) with versions and queues beyond 2^16"),
         shards: CoqShards::new(HEADER, 300),
-        coq_budget: if args.thorough { 6000 } else { 1200 },
+        coq_budget: if args.thorough { 7500 } else { 1500 },
         rng: Rng::new(args.seed),
         runs: 0,
+        lazy_seen: 0,
+        lazy_all: args.replay.is_some(),
     };
-    for l in 0..5u8 { cx.sum.cell_status(&format!("conc/L{}", l), "M+S"); cx.sum.cell_status(&format!("concx/L{}", l), "S-only"); }
+    for l in 0..5u8 { cx.sum.cell_status(&format!("conc/L{}", l), "M+S"); cx.sum.cell_status(&format!("concx/L{}", l), "M+S"); }
     cx.sum.cell_status("seq", "M+S");
     cx.sum.cell_status("seqx", "S-only");
     if let Some(f) = &args.replay {
@@ -1499,7 +1507,7 @@ pub fn run(args: &Args) {
     }
     // 2. enumerated schedules of fixed programs at every level
     let total_coq = cx.coq_budget;
-    cx.coq_budget = total_coq * 5 / 12;
+    cx.coq_budget = total_coq * 9 / 30;
     let per_prog = if args.thorough { 15000 } else { 1500 };
     for (name, progs, bound) in fixed_programs() {
         for level in [3u8, 4, 2, 1, 0] {
@@ -1512,17 +1520,18 @@ pub fn run(args: &Args) {
     cx.sum.dist_max("phase_ms_enumerated_schedules", t0.elapsed().as_millis() as u64);
     // 2x. the same exploration for programs with the oracle-only operations (with_*_token, tokens handed to another thread,
     //     queues beyond the bulk thresholds, clear_all_stats), oracle only
+    cx.coq_budget = total_coq * 13 / 30;
     let per_prog_x = if args.thorough { 6000 } else { 400 };
     for (name, progs, bound, bulk, levels) in fixed_programs_ext() {
         for &level in levels {
             let bound = match (bound, args.thorough) { (Some(b), true) => Some(b + 1), (b, _) => b };
-            let n = cx.explorex(level, &progs, bound, per_prog_x, 0, bulk);
+            let n = cx.explorex(level, &progs, bound, per_prog_x, if args.thorough { 40 } else { 25 }, bulk);
             cx.sum.dist_max(&format!("schedules_x[{}]L{}", name, level), n as u64);
         }
     }
     cx.sum.dist_max("phase_ms_enumerated_schedules_x", t0.elapsed().as_millis() as u64);
     // 3. random programs, random schedules
-    cx.coq_budget = total_coq * 9 / 12;
+    cx.coq_budget = total_coq * 17 / 30;
     let nrand = if args.thorough { 400000 } else { 8000 };
     // the random phases also stop on a wall-clock budget (every case is still derived from the seed
     // in order, so a failing case replays from its replay file whatever the machine speed was)
@@ -1541,6 +1550,7 @@ pub fn run(args: &Args) {
     }
     cx.sum.dist_max("phase_ms_random_schedules", t0.elapsed().as_millis() as u64);
     // 3x. random programs over the whole operation set, random thresholds of the shared list, oracle only
+    cx.coq_budget = total_coq * 21 / 30;
     let nrand_x = if args.thorough { 60000 } else { 2500 };
     for k in 0..nrand_x {
         if t0.elapsed().as_secs() > t_rand + (if args.thorough { 150 } else { 10 }) { cx.sum.dist("random_x_phase_cut_by_time"); break; }
@@ -1550,12 +1560,12 @@ pub fn run(args: &Args) {
         let progs: Vec<Vec<Op>> = (0..nt).map(|_| { let len = r.range(1, 5) as usize; rand_prog_ext(&mut r, len) }).collect();
         let bulk = *r.pick(&[None, None, Some(0u64), Some(1), Some(2), Some(20), Some(u64::MAX)]);
         let den = *r.pick(&[2u64, 4, 8, 8, 16]);
-        let o = cx.concx(level, &progs, Chooser::Random(Rng::new(r.next()), den), false, bulk);
+        let o = cx.concx(level, &progs, Chooser::Random(Rng::new(r.next()), den), k % 8 == 0, bulk);
         if k < 1 { cx.sum.sample(json!({"kind": "random_x", "case": conc_case_json(level, &progs, &o.sched, bulk)})); }
     }
     cx.sum.dist_max("phase_ms_random_schedules_x", t0.elapsed().as_millis() as u64);
     // 4. sequential histories over several managers
-    cx.coq_budget = total_coq;
+    cx.coq_budget = total_coq * 25 / 30;
     // 4a. every history of a fixed length over two OneWriteMultiRead TokenManagers and the alphabet
     //     {acquire reader/writer through the cache on either manager, return / drop the oldest held
     //      token, clear the cache, drop either manager}
@@ -1592,6 +1602,7 @@ pub fn run(args: &Args) {
     }
     // 4c. the lazy free list on its own: queues longer than one and two bulk thresholds, reclaimed at every cut point
     cx.sum.dist_max("phase_ms_enumerated_histories", t0.elapsed().as_millis() as u64);
+    cx.coq_budget = total_coq;
     lazy_cells(&mut cx, args.thorough);
     cx.sum.dist_max("phase_ms_lazy", t0.elapsed().as_millis() as u64);
     // 4d. oracle breadth: the staged family over three doors, long generated histories, random histories over the whole operation set
@@ -1841,7 +1852,12 @@ fn lazy_case_g(cx: &mut Ctx, threshold: u64, script: &[(u64, u64)], gen: Option<
         None => (script, json!({"cell": "lazy", "threshold": threshold, "script": script.iter().map(|(a, b)| json!([a, b])).collect::<Vec<_>>()})),
     };
     cx.sum.eval(cell, &cj.to_string(), script.len() >= 3);
+    // what the list showed, operation by operation (compared with coq/C16/ModelLazy.v `lrun` + `ldrain`):
+    // push / clear_stats: [len]; a processing call: [1, returned count, len afterwards, freed ages ...]; a gated call that did
+    // not fire: [0, len]; then one entry per drain round
+    let obs: std::cell::RefCell<Vec<Vec<u64>>> = Default::default();
     let r = guarded(|| -> Option<String> {
+        let mut obs = obs.borrow_mut();
         let mut l = match threshold {
             LAZY_NEW => LazyFreeList::new(), LAZY_DEFAULT => LazyFreeList::default(), LAZY_UNLIMITED => LazyFreeList::with_bulk_threshold(usize::MAX),
             t => LazyFreeList::with_bulk_threshold(t as usize),
@@ -1851,16 +1867,19 @@ fn lazy_case_g(cx: &mut Ctx, threshold: u64, script: &[(u64, u64)], gen: Option<
         for (step, &(op, v)) in script.iter().enumerate() {
             if op == 0 {
                 l.push(LazyFreeItem::new(v, next_id, 8)); shadow.push_back((v, next_id)); next_id += 1;
+                obs.push(vec![l.len() as u64]);
             } else if op == 3 {
                 l.clear_stats();
+                obs.push(vec![l.len() as u64]);
             } else {
                 // what the list's own predicate says about the oldest item: never "free" at or after its version
                 if let Some(&(a, id)) = shadow.front() {
                     if a >= v && LazyFreeItem::new(a, id, 8).can_free(v) { return Some(format!("step {}: can_free({}) is true for an item retired at version {}", step, v, a)); }
                 }
-                if op == 2 && !l.should_bulk_process() { continue; }
+                if op == 2 && !l.should_bulk_process() { obs.push(vec![0, l.len() as u64]); continue; }
                 let mut freed: Vec<(u64, u32)> = vec![];
                 let n = l.process_safe_items(v, |it| freed.push((it.age, it.memory_offset)));
+                { let mut o = vec![1, n as u64, l.len() as u64]; o.extend(freed.iter().map(|f| f.0)); obs.push(o); }
                 if n != freed.len() { return Some(format!("step {}: process_safe_items({}) returned {} but freed {} items", step, v, n, freed.len())); }
                 for f in &freed {
                     if f.0 >= v { return Some(format!("step {}: item of age {} was freed although min_version is {} (a token of version {} may still see it)", step, f.0, v, v)); }
@@ -1873,7 +1892,8 @@ fn lazy_case_g(cx: &mut Ctx, threshold: u64, script: &[(u64, u64)], gen: Option<
         let mut rounds = 0;
         while !shadow.is_empty() && rounds < 10_000 {
             let mut freed: Vec<(u64, u32)> = vec![];
-            l.process_safe_items(u64::MAX, |it| freed.push((it.age, it.memory_offset)));
+            let n = l.process_safe_items(u64::MAX, |it| freed.push((it.age, it.memory_offset)));
+            { let mut o = vec![1, n as u64, l.len() as u64]; o.extend(freed.iter().map(|f| f.0)); obs.push(o); }
             if freed.is_empty() { return Some(format!("drain: {} items are queued, none can be seen any more, yet nothing is freed", shadow.len())); }
             for f in &freed { match shadow.pop_front() { Some(x) if x == *f => {}, other => return Some(format!("drain: freed item {:?} is not the oldest queued item {:?}", f, other)) } }
             rounds += 1;
@@ -1884,11 +1904,24 @@ fn lazy_case_g(cx: &mut Ctx, threshold: u64, script: &[(u64, u64)], gen: Option<
     match r {
         Err(p) => cx.sum.fail(cell, None, cj, &format!("panicked: {}", p)),
         Ok(Some(m)) => cx.sum.fail(cell, None, cj, &m),
-        Ok(None) => {}
+        Ok(None) => {
+            // replayed by the model: the scripts that are spelled out (every `coq_every`-th one; any replayed case)
+            let n = cx.lazy_seen; cx.lazy_seen += 1;
+            if gen.is_none() && script.len() <= 400 && (cx.lazy_all || n % 6 == 0) && cx.shards.len() < cx.coq_budget {
+                let thr: u64 = match threshold { LAZY_NEW | LAZY_DEFAULT => LazyFreeList::BULK_FREE_NUM as u64, LAZY_UNLIMITED => usize::MAX as u64, t => t };
+                let ops: Vec<String> = script.iter().map(|&(op, v)| match op { 0 => format!("LPush {}", v), 1 => format!("LProcess {}", v), 2 => format!("LGated {}", v), _ => "LClearStats".to_string() }).collect();
+                let ob = obs.borrow();
+                let obs_s: Vec<String> = ob.iter().map(|o| coq_n_list(o.iter().map(|&x| x as u128))).collect();
+                let mut c = cj.clone();
+                c["impl_obs"] = json!(ob.iter().map(|o| o.iter().map(|x| x.to_string()).collect::<Vec<_>>()).collect::<Vec<_>>());
+                cx.shards.push(format!("CLazy ({}%N, [{}]%N, [{}]%N)", thr, ops.join("; "), obs_s.join("; ")), c);
+                cx.sum.dist("lazy_scripts_replayed_by_the_model");
+            }
+        }
     }
 }
 fn lazy_cells(cx: &mut Ctx, thorough: bool) {
-    cx.sum.cell_status("lazy_free_list", "S-only");
+    cx.sum.cell_status("lazy_free_list", "M+S");
     for &th in &[LAZY_NEW, 0, 1, 2, 5, 32, LAZY_DEFAULT, LAZY_UNLIMITED] {
         let t = if th >= LAZY_DEFAULT { 32 } else { th.max(1) } as u64;
         for &n in &[0u64, 1, t - 1 + (t == 1) as u64, t, t + 1, 2 * t - 1, 2 * t, 2 * t + 1, 3 * t + 7] {
